@@ -52,6 +52,7 @@ def run(report, tier, seed):
         lean.close()
         jobs = []
         jobs += list(known_finding_witnesses(sc))
+        jobs += list(cross_packages(sc, quick))
         jobs += list(name_packages(sc, reserved, rng, quick))
         jobs += list(matrix_packages(sc, rng, seed, 3 if quick else 24, quick))
         jobs += list(init_scaffolds(sc, ybin, quick))
@@ -188,6 +189,86 @@ def name_packages(sc, reserved, rng, quick):
         yield Job(f"names:namespace-{ns}", sc.path(f"n-ns-{ns}"), pkg=pkg, manifest_extra=OPTION_SETS[2][1], compile_cpp=True, ndjson=True, namespace=ns)
 
 
+def cross_packages(sc, quick):
+    """every kind of definition x every position that can hold a type, with the definitions in an imported package and in the
+    package itself (directed; runs on every tier). The generated Python must import and every record must default-construct."""
+    P = lambda n: ("prim", n)
+    N = lambda n, *a: ("named", n, list(a))
+
+    def lib_defs():
+        return [
+            {"kind": "record", "name": "XRec", "tparams": [], "fields": [("a", P("int32")), ("b", P("string"))]},
+            {"kind": "enum", "name": "XEnum", "flags": False, "base": None, "auto": True, "values": [("one", 0), ("two", 1)]},
+            {"kind": "enum", "name": "XFlags", "flags": True, "base": "uint16", "auto": True, "values": [("fa", 1), ("fb", 2)]},
+            {"kind": "alias", "name": "XInt", "tparams": [], "type": P("int32")},
+            {"kind": "alias", "name": "XStr", "tparams": [], "type": P("string")},
+            {"kind": "alias", "name": "XUnion", "tparams": [], "type": ("union", False, [(None, P("int32")), (None, P("string"))])},
+            {"kind": "alias", "name": "XUnionN", "tparams": [], "type": ("union", True, [(None, P("int32")), (None, P("string"))])},
+            {"kind": "alias", "name": "XTagged", "tparams": [], "type": ("union", False, [("num", P("float64")), ("rec", N("XRec"))])},
+            {"kind": "alias", "name": "XRecFirst", "tparams": [], "type": ("union", False, [(None, N("XRec")), (None, P("int32"))])},
+            {"kind": "alias", "name": "XEnumFirst", "tparams": [], "type": ("union", False, [(None, N("XEnum")), (None, P("string"))])},
+            {"kind": "alias", "name": "XGUnion", "tparams": ["T"], "type": ("union", False, [("code", P("uint16")), ("value", ("tparam", "T"))])},
+            {"kind": "alias", "name": "XOpt", "tparams": [], "type": ("opt", P("int32"))},
+            {"kind": "alias", "name": "XGOpt", "tparams": ["T"], "type": ("opt", ("tparam", "T"))},
+            {"kind": "alias", "name": "XVec", "tparams": [], "type": ("vec", P("float32"), None)},
+            {"kind": "alias", "name": "XVec3", "tparams": [], "type": ("vec", P("float32"), 3)},
+            {"kind": "alias", "name": "XGVec", "tparams": ["T"], "type": ("vec", ("tparam", "T"), None)},
+            {"kind": "alias", "name": "XArr", "tparams": [], "type": ("arr", P("float32"), ("rank", 2, None))},
+            {"kind": "alias", "name": "XArrF", "tparams": [], "type": ("arr", P("int16"), ("fixed", [2, 3], None))},
+            {"kind": "alias", "name": "XImg", "tparams": ["T"], "type": ("arr", ("tparam", "T"), ("dyn",))},
+            {"kind": "alias", "name": "XMap", "tparams": [], "type": ("map", P("string"), P("int32"))},
+            {"kind": "alias", "name": "XGMap", "tparams": ["T"], "type": ("map", P("string"), ("tparam", "T"))},
+            {"kind": "record", "name": "XPair", "tparams": ["A", "B"], "fields": [("first", ("tparam", "A")), ("second", ("tparam", "B"))]},
+            {"kind": "record", "name": "XBox", "tparams": ["T"], "fields": [("v", ("tparam", "T")), ("vs", ("vec", ("tparam", "T"), None)), ("o", ("opt", ("tparam", "T")))]},
+            {"kind": "alias", "name": "XPairIS", "tparams": [], "type": N("XPair", P("int32"), P("string"))},
+            {"kind": "alias", "name": "XUnion2", "tparams": [], "type": N("XUnion")},
+            {"kind": "alias", "name": "XRec2", "tparams": [], "type": N("XRec")},
+            {"kind": "alias", "name": "XEnum2", "tparams": [], "type": N("XEnum")},
+        ]
+
+    def uses(pre):
+        L = lambda n, *a: ("named", pre + n, list(a))
+        things = [("rec", L("XRec"), "plain"), ("enum", L("XEnum"), "plain"), ("flags", L("XFlags"), "plain"), ("int", L("XInt"), "plain"), ("str", L("XStr"), "plain"),
+                  ("union", L("XUnion"), "union"), ("unionN", L("XUnionN"), "nullable"), ("tagged", L("XTagged"), "union"), ("recFirst", L("XRecFirst"), "union"),
+                  ("enumFirst", L("XEnumFirst"), "union"), ("gunion", L("XGUnion", P("string")), "union"), ("gunionRec", L("XGUnion", L("XRec")), "union"),
+                  ("opt", L("XOpt"), "nullable"), ("gopt", L("XGOpt", L("XRec")), "nullable"), ("vec", L("XVec"), "seq"), ("vec3", L("XVec3"), "seq"),
+                  ("gvec", L("XGVec", L("XEnum")), "seq"), ("arr", L("XArr"), "seq"), ("arrF", L("XArrF"), "seq"), ("img", L("XImg", P("float64")), "seq"),
+                  ("map", L("XMap"), "seq"), ("gmap", L("XGMap", L("XRec")), "seq"), ("pair", L("XPair", L("XInt"), L("XUnion")), "plain"),
+                  ("box", L("XBox", L("XEnum")), "plain"), ("boxRec", L("XBox", L("XRec2")), "plain"), ("pairIS", L("XPairIS"), "plain"), ("union2", L("XUnion2"), "union"),
+                  ("rec2", L("XRec2"), "plain"), ("enum2", L("XEnum2"), "plain")]
+        defs = []
+        defs.append({"kind": "record", "name": "UBox", "tparams": ["T"], "fields": [("v", ("tparam", "T"))]})
+        defs.append({"kind": "record", "name": "UDirect", "tparams": [], "fields": [(n, t) for n, t, _ in things]})
+        defs.append({"kind": "record", "name": "UOptional", "tparams": [], "fields": [(n, ("opt", t)) for n, t, k in things if k not in ("nullable",)]})
+        defs.append({"kind": "record", "name": "UVector", "tparams": [], "fields": [(n, ("vec", t, None)) for n, t, k in things]})
+        defs.append({"kind": "record", "name": "UFixedVector", "tparams": [], "fields": [(n, ("vec", t, 2)) for n, t, k in things]})
+        defs.append({"kind": "record", "name": "UMapValue", "tparams": [], "fields": [(n, ("map", P("string"), t)) for n, t, k in things]})
+        defs.append({"kind": "record", "name": "UArray", "tparams": [], "fields": [(n, ("arr", t, ("rank", 1, None))) for n, t, k in things if k == "plain"]})
+        defs.append({"kind": "record", "name": "UUnionCase", "tparams": [], "fields": [(n, ("union", False, [("mine" + n[:1].upper() + n[1:], P("bool")), ("theirs" + n[:1].upper() + n[1:], t)])) for n, t, k in things if k in ("plain", "seq")]})
+        defs.append({"kind": "record", "name": "UNullableUnionCase", "tparams": [], "fields": [(n, ("union", True, [("my" + n[:1].upper() + n[1:], P("bool")), ("their" + n[:1].upper() + n[1:], t)])) for n, t, k in things if k in ("plain", "seq")]})
+        defs.append({"kind": "record", "name": "ULocalGenericArg", "tparams": [], "fields": [(n, ("named", "UBox", [t])) for n, t, k in things]})
+        defs.append({"kind": "record", "name": "UTheirGenericArg", "tparams": [], "fields": [(n, L("XPair", t, P("int32"))) for n, t, k in things]})
+        for n, t, k in things:
+            defs.append({"kind": "alias", "name": "UAlias" + n[:1].upper() + n[1:], "tparams": [], "type": t})
+        defs.append({"kind": "record", "name": "UThroughAlias", "tparams": [], "fields": [(n, ("named", "UAlias" + n[:1].upper() + n[1:], [])) for n, t, k in things]})
+        defs.append({"kind": "record", "name": "UGenericHolder", "tparams": ["T"], "fields": [("t", ("tparam", "T"))] + [(n, t) for n, t, k in things[:12]]})
+        steps = [(n, t, False) for n, t, k in things] + [(n + "S", t, True) for n, t, k in things]
+        steps += [("all" + d["name"], ("named", d["name"], []), i % 2 == 0) for i, d in enumerate(defs) if d["kind"] == "record" and not d["tparams"]]
+        steps.append(("holder", ("named", "UGenericHolder", [L("XUnion")]), True))
+        defs.append({"kind": "protocol", "name": "UProtocol", "steps": steps})
+        return defs
+
+    imp = modelgen.Package("CrossLib")
+    imp.defs = lib_defs()
+    pkg = modelgen.Package("CrossApp")
+    pkg.imports.append(imp)
+    pkg.defs = uses("CrossLib.")
+    yield Job("cross:imported", sc.path("cross-imported"), pkg=pkg, manifest_extra=OPTION_SETS[2][1], compile_cpp=True, ndjson=True, namespace="CrossApp")
+    one = modelgen.Package("CrossOne")
+    one.defs = lib_defs() + uses("")
+    yield Job("cross:same-namespace", sc.path("cross-one"), pkg=one, manifest_extra=OPTION_SETS[2][1], compile_cpp=not quick, ndjson=True, namespace="CrossOne")
+
+
 def known_finding_witnesses(sc):
     """minimal packages for the open findings of this property: they run on every tier"""
     P = lambda n: ("prim", n)
@@ -272,8 +353,15 @@ def _check_python(out_py, namespace):
         m = re.search(r"\n\s+(\S[^\n]*)\n\s*\^+\nSyntaxError: ([^\n]*)", out)
         sig = "SyntaxError: " + (re.sub(r"[A-Za-z_][A-Za-z0-9_.]*", "X", m.group(1))[:60] + " :: " + m.group(2) if m else "?")
         return {"rc": 1, "out": sig + "\n" + out[-2500:], "modules": mods}
-    code = ("import sys, importlib\nsys.path.insert(0, sys.argv[1])\n"
-            "for m in sys.argv[2:]:\n    importlib.import_module(m)\n    importlib.import_module(m + '.binary')\n    importlib.import_module(m + '.ndjson')\n    importlib.import_module(m + '.protocols')\n")
+    code = ("import sys, importlib, inspect\nsys.path.insert(0, sys.argv[1])\n"
+            "for m in sys.argv[2:]:\n    importlib.import_module(m)\n    importlib.import_module(m + '.binary')\n    importlib.import_module(m + '.ndjson')\n    importlib.import_module(m + '.protocols')\n"
+            # a record whose fields all have defaults must default-construct: a default that names something undefined only fails here
+            "    t = importlib.import_module(m + '.types')\n"
+            "    for name, cls in sorted(vars(t).items()):\n"
+            "        if inspect.isclass(cls) and cls.__module__ == t.__name__ and '__init__' in vars(cls):\n"
+            "            try:\n                cls()\n"
+            "            except (NameError, AttributeError, ImportError) as e:\n                raise RuntimeError(f'default construction of {m}.{name}: {type(e).__name__}: {e}')\n"
+            "            except Exception:\n                pass\n")
     p = subprocess.run(["python3-vt", "-c", code, out_py] + mods, stdout=subprocess.PIPE, stderr=subprocess.PIPE, timeout=300)
     return {"rc": p.returncode, "out": (p.stdout + p.stderr).decode(errors="replace")[-2500:], "modules": mods}
 
